@@ -20,11 +20,16 @@ Fixpoint kops_ok (k : kern) (ops : list kop) : bool :=
   | o :: r => match kstep k o with Some (_, k') => kops_ok k' r | None => false end
   end.
 
+Definition is_stopped (c : child) : bool := match cs c with Stopped _ => true | _ => false end.
+
 Record LSim (k : kern) (g : ledger) : Prop := mkLSim {
   ls_born : born g = map code (kids k);
   ls_in : forall i c, nth_error (kids k) i = Some c ->
-            mem i (exited g) = negb (is_running c) /\ mem i (reported g) = is_reaped c;
-  ls_out : forall i, length (kids k) <= i -> mem i (exited g) = false /\ mem i (reported g) = false;
+            mem i (exited g) = negb (is_alive c) /\ mem i (reported g) = is_reaped c /\
+            mem i (halted g) = is_stopped c /\ mem i (fresh g) = is_alive c && chg c;
+  ls_out : forall i, length (kids k) <= i ->
+            mem i (exited g) = false /\ mem i (reported g) = false /\
+            mem i (halted g) = false /\ mem i (fresh g) = false;
   ls_catch : l_catching g = catching k;
   ls_block : l_blocked g = blocked k;
   ls_pend : owed_pending g = pending k;
@@ -35,6 +40,21 @@ Proof. constructor; cbn; auto. intros [|i] c H; discriminate. Qed.
 
 Lemma mem_cons i j l : mem i (j :: l) = (i =? j) || mem i l.
 Proof. reflexivity. Qed.
+
+Lemma mem_drop i j l : mem i (drop j l) = mem i l && negb (i =? j).
+Proof.
+  unfold drop. induction l as [|x t IH]; [reflexivity|]. cbn [filter].
+  destruct (Nat.eqb_spec x j) as [->|Hne]; cbn [negb].
+  - rewrite IH. rewrite mem_cons. destruct (Nat.eqb_spec i j); cbn; [rewrite andb_false_r; reflexivity | reflexivity].
+  - rewrite !mem_cons, IH. destruct (Nat.eqb_spec i x) as [->|]; cbn [orb]; [|reflexivity].
+    destruct (Nat.eqb_spec x j); [contradiction|]. reflexivity.
+Qed.
+
+Lemma mem_add i j l : mem i (add j l) = (i =? j) || mem i l.
+Proof.
+  unfold add. destruct (mem j l) eqn:E; [|reflexivity].
+  destruct (Nat.eqb_spec i j) as [->|]; [rewrite E; reflexivity | reflexivity].
+Qed.
 
 Lemma existsb_seq_nth {A} (f : A -> bool) (g : nat -> bool) (l : list A) : forall n,
   (forall i c, nth_error l i = Some c -> g (n + i) = f c) ->
@@ -58,18 +78,69 @@ Proof.
   - f_equal. eapply IH; eauto.
 Qed.
 
+(* the bookkeeping of SIGCHLD: [owe] mirrors [raise_chld] *)
+Lemma owe_sim k g l ex rp ha fr :
+  l_catching g = catching k -> l_blocked g = blocked k -> owed_pending g = pending k ->
+  owed_caught g = caught k ->
+  let g' := owe g ex rp ha fr in
+  let k' := raise_chld (set_kids k l) in
+  born g' = born g /\ exited g' = ex /\ reported g' = rp /\ halted g' = ha /\ fresh g' = fr /\
+  l_catching g' = catching k' /\ l_blocked g' = blocked k' /\ owed_pending g' = pending k' /\
+  owed_caught g' = caught k'.
+Proof.
+  intros H1 H2 H3 H4. unfold owe, raise_chld, deliver, set_kids; cbn [blocked catching pending caught kids].
+  rewrite H1, H2. destruct (blocked k); [|destruct (catching k)];
+    cbn [born exited reported halted fresh l_catching l_blocked owed_pending owed_caught
+         blocked catching pending caught]; repeat split; auto.
+Qed.
+
+(* one child is replaced: the per-child relation for all the others stays *)
+Definition rel (g : ledger) (i : nat) (c : child) : Prop :=
+  mem i (exited g) = negb (is_alive c) /\ mem i (reported g) = is_reaped c /\
+  mem i (halted g) = is_stopped c /\ mem i (fresh g) = is_alive c && chg c.
+
+Lemma lsim_replace k g k' g' i c c' :
+  LSim k g -> nth_error (kids k) i = Some c -> code c' = code c ->
+  kids k' = upd (kids k) i c' -> born g' = born g ->
+  rel g' i c' ->
+  (forall j, j <> i -> mem j (exited g') = mem j (exited g) /\ mem j (reported g') = mem j (reported g)
+                       /\ mem j (halted g') = mem j (halted g) /\ mem j (fresh g') = mem j (fresh g)) ->
+  l_catching g' = catching k' -> l_blocked g' = blocked k' -> owed_pending g' = pending k' ->
+  owed_caught g' = caught k' ->
+  LSim k' g'.
+Proof.
+  intros [Hb Hin Hout _ _ _ _] Hn Hcode Hk Hborn Hrel Hoth H1 H2 H3 H4.
+  constructor; auto.
+  - rewrite Hborn, Hb, Hk. symmetry. eapply map_code_upd; eauto.
+  - intros j d Hd. rewrite Hk in Hd. rewrite (nth_error_upd _ i j _ c Hn) in Hd.
+    destruct (Nat.eqb_spec i j) as [->|Hne].
+    + apply Some_inj in Hd. subst d. exact Hrel.
+    + destruct (Hoth j ltac:(congruence)) as [A [B [C D]]]. rewrite A, B, C, D. apply Hin. assumption.
+  - intros j Hj. rewrite Hk, upd_length in Hj.
+    assert (j <> i) by (intros ->; apply nth_error_None in Hj; congruence).
+    destruct (Hoth j H) as [A [B [C D]]]. rewrite A, B, C, D. apply Hout. assumption.
+Qed.
+
 Lemma lsim_step k g o b k' :
   LSim k g -> kstep k o = Some (b, k') ->
   exists g', ledger_step g o b (pending k') = (None, g') /\ LSim k' g'.
 Proof.
-  intros [Hb Hin Hout Hca Hbl Hpe Hcg] Hst.
+  intros HS Hst. pose proof HS as [Hb Hin Hout Hca Hbl Hpe Hcg].
   assert (Hlen : length (born g) = length (kids k)) by (rewrite Hb; apply map_length).
-  destruct o as [w st|i|t| | |c|]; cbn [kstep] in Hst.
+  assert (Halive : forall j d, nth_error (kids k) j = Some d ->
+            ((j <? length (kids k)) && negb (mem j (exited g))) = is_alive d).
+  { intros j d Hd. destruct (Hin j d Hd) as [H1 _]. rewrite H1.
+    assert (j < length (kids k)) by (eapply nth_error_Some_lt'; eauto).
+    destruct (Nat.ltb_spec j (length (kids k))); [|lia]. cbn. destruct (is_alive d); reflexivity. }
+  assert (Hdead : forall j, nth_error (kids k) j = None ->
+            ((j <? length (kids k)) && negb (mem j (exited g))) = false).
+  { intros j Hd. apply nth_error_None in Hd. destruct (Nat.ltb_spec j (length (kids k))); [lia|]. reflexivity. }
+  destruct o as [w st|i|sg i|t| | |c|]; cbn [kstep] in Hst.
   - (* fork *)
     cbn [k_fork] in Hst. apply Some_inj in Hst. inversion Hst; subst b k'. clear Hst.
     unfold ledger_step. rewrite Hlen, Nat.eqb_refl.
     eexists. split; [apply upd_sig_eq; cbn; auto|].
-    constructor; cbn [born exited reported l_catching l_blocked owed_pending owed_caught
+    constructor; cbn [born exited reported halted fresh l_catching l_blocked owed_pending owed_caught
                       set_kids kids catching blocked pending caught]; auto.
     + rewrite map_app, Hb. reflexivity.
     + intros i c Hi. destruct (Nat.lt_ge_cases i (length (kids k))) as [Hlt|Hge].
@@ -81,101 +152,143 @@ Proof.
   - (* exit *)
     unfold k_exit in Hst. destruct (nth_error (kids k) i) as [c|] eqn:Hn; [|discriminate].
     destruct (cs c) eqn:Hc; try discriminate. apply Some_inj in Hst. inversion Hst; subst b k'. clear Hst.
-    set (c' := mkChild Zombie (code c) (reaps c)).
-    assert (Hkids : forall kk, kids kk = upd (kids k) i c' ->
-              (forall j d, nth_error (kids kk) j = Some d ->
-                 mem j (i :: exited g) = negb (is_running d) /\ mem j (reported g) = is_reaped d) /\
-              (forall j, length (kids kk) <= j -> mem j (i :: exited g) = false /\ mem j (reported g) = false) /\
-              born g = map code (kids kk)).
-    { intros kk Hk. rewrite Hk. repeat split.
-      - rewrite mem_cons. rewrite (nth_error_upd _ _ _ _ _ Hn) in H.
-        destruct (Nat.eqb_spec i j) as [->|Hne].
-        + apply Some_inj in H. subst d. rewrite Nat.eqb_refl. reflexivity.
-        + destruct (Nat.eqb_spec j i); [congruence|]. cbn [orb]. apply (Hin j d H).
-      - rewrite (nth_error_upd _ _ _ _ _ Hn) in H.
-        destruct (Nat.eqb_spec i j) as [->|Hne].
-        + apply Some_inj in H. subst d. destruct (Hin j c Hn) as [_ H2]. rewrite H2.
-          unfold is_reaped. rewrite Hc. reflexivity.
-        + apply (Hin j d H).
-      - rewrite mem_cons. rewrite upd_length in H.
-        destruct (Nat.eqb_spec j i) as [->|Hne].
-        + apply nth_error_None in H. congruence.
-        + cbn [orb]. apply Hout. assumption.
-      - rewrite upd_length in H. apply Hout. assumption.
-      - rewrite Hb. clear - Hn. revert i Hn. induction (kids k) as [|y t IH]; intros [|i] Hn; cbn in *; try discriminate.
-        + apply Some_inj in Hn. subst. reflexivity.
-        + f_equal. apply IH. assumption. }
-    unfold ledger_step. rewrite Hbl, Hca.
-    unfold raise_chld, deliver, set_kids; cbn [blocked catching kids pending caught].
-    destruct (blocked k) eqn:Eb.
-    + destruct (Hkids (mkKern (upd (kids k) i c') (catching k) true true (caught k)) eq_refl) as [H1 [H2 H3]].
-      eexists. split; [apply upd_sig_eq; reflexivity|].
-      constructor; cbn [born exited reported l_catching l_blocked owed_pending owed_caught
-                        kids catching blocked pending caught]; auto.
-    + destruct (catching k) eqn:Ec.
-      * destruct (Hkids (mkKern (upd (kids k) i c') true false (pending k) (S (caught k))) eq_refl) as [H1 [H2 H3]].
-        eexists. split; [apply upd_sig_eq; cbn; auto|].
-        constructor; cbn [born exited reported l_catching l_blocked owed_pending owed_caught
-                          kids catching blocked pending caught]; auto.
-      * destruct (Hkids (mkKern (upd (kids k) i c') false false (pending k) (caught k)) eq_refl) as [H1 [H2 H3]].
-        eexists. split; [apply upd_sig_eq; cbn; auto|].
-        constructor; cbn [born exited reported l_catching l_blocked owed_pending owed_caught
-                          kids catching blocked pending caught]; auto.
+    set (c' := mkChild Zombie (code c) (reaps c) false).
+    destruct (owe_sim k g (upd (kids k) i c') (i :: exited g) (reported g) (halted g) (drop i (fresh g))
+                Hca Hbl Hpe Hcg) as [E1 [E2 [E3 [E4 [E5 [E6 [E7 [E8 E9]]]]]]]].
+    unfold ledger_step. eexists. split; [apply upd_sig_eq; symmetry; exact E8|].
+    destruct (Hin i c Hn) as [A [B [C D]]].
+    eapply (lsim_replace k g _ _ i c c' HS Hn); auto.
+    + rewrite kids_raise. reflexivity.
+    + unfold rel. rewrite E2, E3, E4, E5, mem_cons, Nat.eqb_refl, mem_drop, Nat.eqb_refl, B, C.
+      unfold is_alive, is_reaped, is_stopped. subst c'. cbn [cs chg]. rewrite Hc. cbn. rewrite andb_false_r. auto.
+    + intros j Hj. rewrite E2, E3, E4, E5, mem_cons, mem_drop.
+      destruct (Nat.eqb_spec j i); [contradiction|]. cbn. rewrite andb_true_r. auto.
+  - (* a signal *)
+    apply Some_inj in Hst. inversion Hst; subst b k'. clear Hst.
+    unfold ledger_step, k_signal. rewrite Hlen.
+    destruct (nth_error (kids k) i) as [c|] eqn:Hn.
+    + rewrite (Halive i c Hn). destruct (Hin i c Hn) as [A [B [C D]]]. rewrite C.
+      assert (Hsame : exists g', (if Bool.eqb (pending k) (owed_pending g) then (@None N, g) else (Some 5%N, g))
+                                 = (None, g') /\ LSim k g').
+      { exists g. split; [apply upd_sig_eq; auto | assumption]. }
+      destruct sg; destruct (cs c) eqn:Hc; unfold is_alive, is_stopped; rewrite Hc; cbn [andb negb];
+        try exact Hsame.
+      * (* stop a running child *)
+        set (c' := mkChild (Stopped p) (code c) (reaps c) true).
+        destruct (owe_sim k g (upd (kids k) i c') (exited g) (reported g) (i :: halted g) (add i (fresh g))
+                    Hca Hbl Hpe Hcg) as [E1 [E2 [E3 [E4 [E5 [E6 [E7 [E8 E9]]]]]]]].
+        eexists. split; [apply upd_sig_eq; symmetry; exact E8|].
+        eapply (lsim_replace k g _ _ i c c' HS Hn); auto.
+        -- rewrite kids_raise. reflexivity.
+        -- unfold rel. rewrite E2, E3, E4, E5, mem_cons, Nat.eqb_refl, mem_add, Nat.eqb_refl, A, B.
+           unfold is_alive, is_reaped, is_stopped. subst c'. cbn [cs chg]. rewrite Hc. auto.
+        -- intros j Hj. rewrite E2, E3, E4, E5, mem_cons, mem_add.
+           destruct (Nat.eqb_spec j i); [contradiction|]. auto.
+      * (* continue a stopped child *)
+        set (c' := mkChild (Running p) (code c) (reaps c) true).
+        destruct (owe_sim k g (upd (kids k) i c') (exited g) (reported g) (drop i (halted g)) (add i (fresh g))
+                    Hca Hbl Hpe Hcg) as [E1 [E2 [E3 [E4 [E5 [E6 [E7 [E8 E9]]]]]]]].
+        eexists. split; [apply upd_sig_eq; symmetry; exact E8|].
+        eapply (lsim_replace k g _ _ i c c' HS Hn); auto.
+        -- rewrite kids_raise. reflexivity.
+        -- unfold rel. rewrite E2, E3, E4, E5, mem_drop, Nat.eqb_refl, mem_add, Nat.eqb_refl, A, B.
+           unfold is_alive, is_reaped, is_stopped. subst c'. cbn [cs chg]. rewrite Hc. cbn.
+           rewrite andb_false_r. auto.
+        -- intros j Hj. rewrite E2, E3, E4, E5, mem_drop, mem_add.
+           destruct (Nat.eqb_spec j i); [contradiction|]. cbn. rewrite andb_true_r. auto.
+    + rewrite (Hdead i Hn). cbn [andb].
+      exists g. split; [destruct sg; apply upd_sig_eq; auto | assumption].
   - (* wait *)
     destruct (kwait k t) as [r k1] eqn:Ew. apply Some_inj in Hst. inversion Hst; subst b k'. clear Hst.
     assert (Hun : forall j d, nth_error (kids k) j = Some d ->
               (mem j (exited g) && negb (mem j (reported g))) = is_zombie d).
-    { intros j d Hd. destruct (Hin j d Hd) as [H1 H2]. rewrite H1, H2.
-      unfold is_running, is_reaped, is_zombie. destruct (cs d); reflexivity. }
-    assert (Hal : forall j d, nth_error (kids k) j = Some d ->
-              ((j <? length (kids k)) && negb (mem j (exited g))) = is_running d).
-    { intros j d Hd. destruct (Hin j d Hd) as [H1 _]. rewrite H1.
-      assert (j < length (kids k)) by (eapply nth_error_Some_lt'; eauto).
-      destruct (Nat.ltb_spec j (length (kids k))); [|lia]. cbn. destruct (is_running d); reflexivity. }
+    { intros j d Hd. destruct (Hin j d Hd) as [H1 [H2 _]]. rewrite H1, H2.
+      unfold is_alive, is_reaped, is_zombie. destruct (cs d); reflexivity. }
+    assert (Hfr : forall j d, nth_error (kids k) j = Some d ->
+              (((j <? length (kids k)) && negb (mem j (exited g))) && mem j (fresh g)) = is_alive d && chg d).
+    { intros j d Hd. rewrite (Halive j d Hd). destruct (Hin j d Hd) as [_ [_ [_ H4]]]. rewrite H4.
+      destruct (is_alive d); reflexivity. }
     assert (Hex1 : existsb (fun i => mem i (exited g) && negb (mem i (reported g))) (seq 0 (length (kids k)))
                    = existsb is_zombie (kids k)).
     { apply existsb_seq_nth. intros i c Hi. cbn. apply Hun. assumption. }
     assert (Hex2 : existsb (fun i => (i <? length (kids k)) && negb (mem i (exited g))) (seq 0 (length (kids k)))
-                   = existsb is_running (kids k)).
-    { apply existsb_seq_nth. intros i c Hi. cbn. apply Hal. assumption. }
-    destruct r as [j st| |].
-    + destruct (kwait_some _ _ _ _ _ Ew) as [c [Hn [Hz [Hst [Hk Ht]]]]]. subst k1 st.
-      unfold ledger_step. rewrite ?Hlen.
+                   = existsb is_alive (kids k)).
+    { apply existsb_seq_nth. intros i c Hi. cbn. apply Halive. assumption. }
+    assert (Hex3 : existsb (fun i => ((i <? length (kids k)) && negb (mem i (exited g))) && mem i (fresh g))
+                     (seq 0 (length (kids k)))
+                   = existsb (fun d => is_alive d && chg d) (kids k)).
+    { apply existsb_seq_nth. intros i c Hi. cbn. apply Hfr. assumption. }
+    assert (Hnonews : (forall c, In c (kids k) -> has_news_c c = false) ->
+              existsb is_zombie (kids k) = false /\ existsb (fun d => is_alive d && chg d) (kids k) = false).
+    { intros Hz. split.
+      - destruct (existsb is_zombie (kids k)) eqn:E; [|reflexivity].
+        apply existsb_exists in E. destruct E as [c [Hc1 Hc2]]. specialize (Hz c Hc1).
+        unfold is_zombie, has_news_c in *. destruct (cs c); discriminate.
+      - destruct (existsb (fun d => is_alive d && chg d) (kids k)) eqn:E; [|reflexivity].
+        apply existsb_exists in E. destruct E as [c [Hc1 Hc2]]. specialize (Hz c Hc1).
+        unfold is_alive, has_news_c in *. destruct (cs c); cbn in *; congruence. }
+    unfold ledger_step. rewrite ?Hlen.
+    destruct r as [j st|j|j| |].
+    + (* an exit is reported *)
+      destruct (kwait_some _ _ _ _ _ Ew) as [c [Hn [Hz [Hst [Hk Ht]]]]]. subst k1 st.
       assert (Hok : (match t with TPid i => i =? j | TAny => true end) = true)
         by (destruct t; [subst; apply Nat.eqb_refl | reflexivity]).
       rewrite Hok. cbn [negb].
       rewrite (Hun j c Hn). unfold is_zombie at 1. rewrite Hz. cbn [negb].
       rewrite Hb. rewrite nth_error_map, Hn. cbn [option_map option_eqb]. rewrite N.eqb_refl. cbn [negb].
       eexists. split; [apply upd_sig_eq; cbn; auto|].
-      constructor; cbn [born exited reported l_catching l_blocked owed_pending owed_caught
-                        set_kids kids catching blocked pending caught]; auto.
-      * symmetry. apply (map_code_upd _ _ _ _ Hn). reflexivity.
-      * intros i d Hd. rewrite (nth_error_upd _ _ _ _ _ Hn) in Hd. rewrite mem_cons.
-        destruct (Nat.eqb_spec j i) as [->|Hne].
-        -- apply Some_inj in Hd. subst d. rewrite Nat.eqb_refl. cbn.
-           destruct (Hin i c Hn) as [H1 _]. rewrite H1. unfold is_running. rewrite Hz. auto.
-        -- destruct (Nat.eqb_spec i j); [congruence|]. cbn [orb]. apply (Hin i d Hd).
-      * intros i Hi. rewrite upd_length in Hi. rewrite mem_cons.
-        destruct (Nat.eqb_spec i j) as [->|Hne]; [|apply Hout; assumption].
-        apply nth_error_None in Hi. congruence.
-    + destruct (kwait_none _ _ _ Ew) as [-> Ht].
-      unfold ledger_step. rewrite ?Hlen.
+      destruct (Hin j c Hn) as [A [B [C D]]].
+      eapply (lsim_replace k g _ _ j c (reap c) HS Hn); cbn [born exited reported halted fresh
+          l_catching l_blocked owed_pending owed_caught set_kids kids catching blocked pending caught]; auto.
+      * unfold rel; cbn [exited reported halted fresh]. rewrite mem_cons, Nat.eqb_refl, A, C, D.
+        unfold is_alive, is_reaped, is_stopped, reap. cbn [cs chg]. rewrite Hz. auto.
+      * intros i Hi. rewrite mem_cons. destruct (Nat.eqb_spec i j); [contradiction|]. auto.
+    + (* a stop is reported *)
+      destruct (kwait_seen _ _ _ _ j Ew (or_introl eq_refl)) as [c [Hn [Ha [Hg [Hk [Hs1 [_ Ht]]]]]]]. subst k1.
+      destruct (Hs1 eq_refl) as [p Hc].
+      assert (Hok : (match t with TPid i => i =? j | TAny => true end) = true)
+        by (destruct t; [subst; apply Nat.eqb_refl | reflexivity]).
+      rewrite Hok. cbn [negb].
+      destruct (Hin j c Hn) as [A [B [C D]]]. rewrite D, C, (Halive j c Hn), Ha, Hg.
+      unfold is_stopped. rewrite Hc. cbn [andb negb].
+      eexists. split; [apply upd_sig_eq; cbn; auto|].
+      eapply (lsim_replace k g _ _ j c (seen c) HS Hn); cbn [born exited reported halted fresh
+          l_catching l_blocked owed_pending owed_caught set_kids kids catching blocked pending caught]; auto.
+      * unfold rel; cbn [exited reported halted fresh]. rewrite mem_drop, Nat.eqb_refl, A, B, C.
+        unfold is_alive, is_reaped, is_stopped, seen. cbn [cs chg]. rewrite Hc. cbn. rewrite andb_false_r. auto.
+      * intros i Hi. rewrite mem_drop. destruct (Nat.eqb_spec i j); [contradiction|]. cbn. rewrite andb_true_r. auto.
+    + (* a continuation is reported *)
+      destruct (kwait_seen _ _ _ _ j Ew (or_intror eq_refl)) as [c [Hn [Ha [Hg [Hk [_ [Hs2 Ht]]]]]]]. subst k1.
+      destruct (Hs2 eq_refl) as [p Hc].
+      assert (Hok : (match t with TPid i => i =? j | TAny => true end) = true)
+        by (destruct t; [subst; apply Nat.eqb_refl | reflexivity]).
+      rewrite Hok. cbn [negb].
+      destruct (Hin j c Hn) as [A [B [C D]]]. rewrite D, C, (Halive j c Hn), Ha, Hg.
+      unfold is_stopped. rewrite Hc. cbn [andb negb].
+      eexists. split; [apply upd_sig_eq; cbn; auto|].
+      eapply (lsim_replace k g _ _ j c (seen c) HS Hn); cbn [born exited reported halted fresh
+          l_catching l_blocked owed_pending owed_caught set_kids kids catching blocked pending caught]; auto.
+      * unfold rel; cbn [exited reported halted fresh]. rewrite mem_drop, Nat.eqb_refl, A, B, C.
+        unfold is_alive, is_reaped, is_stopped, seen. cbn [cs chg]. rewrite Hc. cbn. rewrite andb_false_r. auto.
+      * intros i Hi. rewrite mem_drop. destruct (Nat.eqb_spec i j); [contradiction|]. cbn. rewrite andb_true_r. auto.
+    + (* none yet *)
+      destruct (kwait_none _ _ _ Ew) as [-> Ht].
       assert (Hfine : (match t with
-                       | TPid i => (i <? length (kids k)) && negb (mem i (exited g))
+                       | TPid i => ((i <? length (kids k)) && negb (mem i (exited g))) && negb (mem i (fresh g))
                        | TAny => negb (existsb (fun i => mem i (exited g) && negb (mem i (reported g))) (seq 0 (length (kids k))))
+                                 && negb (existsb (fun i => ((i <? length (kids k)) && negb (mem i (exited g))) && mem i (fresh g))
+                                            (seq 0 (length (kids k))))
                                  && existsb (fun i => (i <? length (kids k)) && negb (mem i (exited g))) (seq 0 (length (kids k)))
                        end) = true).
       { destruct t as [i|].
-        - destruct Ht as [c [w [Hn Hc]]]. rewrite (Hal i c Hn). unfold is_running. rewrite Hc. reflexivity.
-        - destruct Ht as [Hz Hr]. rewrite Hex1, Hex2, Hr.
-          assert (existsb is_zombie (kids k) = false).
-          { destruct (existsb is_zombie (kids k)) eqn:E; [|reflexivity].
-            apply existsb_exists in E. destruct E as [c [Hc1 Hc2]]. rewrite (Hz c Hc1) in Hc2. discriminate. }
-          rewrite H. reflexivity. }
+        - destruct Ht as [c [Hn [Ha Hnn]]]. rewrite (Halive i c Hn), Ha.
+          destruct (Hin i c Hn) as [_ [_ [_ D]]]. rewrite D, Ha.
+          unfold has_news_c, is_alive in *. destruct (cs c); try discriminate; rewrite Hnn; reflexivity.
+        - destruct Ht as [Hz Hr]. destruct (Hnonews Hz) as [N1 N2]. rewrite Hex1, Hex2, Hex3, N1, N2, Hr. reflexivity. }
       rewrite Hfine.
-      eexists. split; [apply upd_sig_eq; auto|]. constructor; auto.
-    + destruct (kwait_echild _ _ _ Ew) as [-> Ht].
-      unfold ledger_step. rewrite ?Hlen.
+      eexists. split; [apply upd_sig_eq; auto|]. assumption.
+    + (* ECHILD *)
+      destruct (kwait_echild _ _ _ Ew) as [-> Ht].
       assert (Hfine : (match t with
                        | TPid i => negb ((i <? length (kids k)) && negb (mem i (exited g)))
                                    && negb (mem i (exited g) && negb (mem i (reported g)))
@@ -184,21 +297,20 @@ Proof.
                        end) = true).
       { destruct t as [i|].
         - destruct Ht as [Hn|[c [Hn Hc]]].
-          + apply nth_error_None in Hn. destruct (Hout i Hn) as [H1 H2]. rewrite H1, H2.
-            destruct (Nat.ltb_spec i (length (kids k))); [lia|]. reflexivity.
-          + rewrite (Hal i c Hn), (Hun i c Hn). unfold is_running, is_zombie. rewrite Hc. reflexivity.
+          + rewrite (Hdead i Hn). apply nth_error_None in Hn. destruct (Hout i Hn) as [H1 [H2 _]]. rewrite H1. reflexivity.
+          + rewrite (Halive i c Hn), (Hun i c Hn). unfold is_alive, is_zombie. rewrite Hc. reflexivity.
         - rewrite Hex1, Hex2.
           assert (E1 : existsb is_zombie (kids k) = false).
           { destruct (existsb is_zombie (kids k)) eqn:E; [|reflexivity].
             apply existsb_exists in E. destruct E as [c [Hc1 Hc2]].
             unfold is_zombie in Hc2. rewrite (Ht c Hc1) in Hc2. discriminate. }
-          assert (E2 : existsb is_running (kids k) = false).
-          { destruct (existsb is_running (kids k)) eqn:E; [|reflexivity].
+          assert (E2 : existsb is_alive (kids k) = false).
+          { destruct (existsb is_alive (kids k)) eqn:E; [|reflexivity].
             apply existsb_exists in E. destruct E as [c [Hc1 Hc2]].
-            unfold is_running in Hc2. rewrite (Ht c Hc1) in Hc2. discriminate. }
+            unfold is_alive in Hc2. rewrite (Ht c Hc1) in Hc2. discriminate. }
           rewrite E1, E2. reflexivity. }
       rewrite Hfine.
-      eexists. split; [apply upd_sig_eq; auto|]. constructor; auto.
+      eexists. split; [apply upd_sig_eq; auto|]. assumption.
   - apply Some_inj in Hst. inversion Hst; subst b k'. clear Hst. unfold ledger_step.
     eexists. split; [apply upd_sig_eq; cbn; auto|]. constructor; cbn; auto.
   - apply Some_inj in Hst. inversion Hst; subst b k'. clear Hst. unfold ledger_step.
